@@ -7,6 +7,7 @@ import (
 	"go/token"
 	"go/types"
 	"regexp"
+	"runtime"
 	"sort"
 	"strings"
 	"sync"
@@ -112,20 +113,20 @@ func matching(s string) int {
 // ------------------------------------------------------------------------------------------------
 
 type FuncReport struct {
-	Key       string
-	Contract  *Contract
-	Obls      []*Obligation
-	Trivial   int
-	Paths     int
-	Aborted   string
-	Notes     []string
-	Unknown   []string
-	MayPanic  []string
-	TypeInvs  []string
-	Returns   int
-	ReqSat    string
-	GlobalsS  string
-	exec      *Exec
+	Key      string
+	Contract *Contract
+	Obls     []*Obligation
+	Trivial  int
+	Paths    int
+	Aborted  string
+	Notes    []string
+	Unknown  []string
+	MayPanic []string
+	TypeInvs []string
+	Returns  int
+	ReqSat   string
+	GlobalsS string
+	exec     *Exec
 }
 
 func newExec(p *Program) *Exec {
@@ -146,7 +147,19 @@ func (p *Program) verifyFunction(fn *ssa.Function, ct *Contract) *FuncReport {
 					rep.Aborted = a.msg
 					return
 				}
-				panic(r)
+				buf := make([]byte, 4096)
+				buf = buf[:runtime.Stack(buf, false)]
+				lines := strings.Split(string(buf), "\n")
+				var where []string
+				for _, l := range lines {
+					if strings.Contains(l, "/verif/gocv/") && !strings.Contains(l, "driver.go") {
+						where = append(where, strings.TrimSpace(l))
+						if len(where) >= 3 {
+							break
+						}
+					}
+				}
+				rep.Aborted = fmt.Sprintf("internal error: %v at %s", r, strings.Join(where, " <- "))
 			}
 		}()
 		x.verify(fn, ct, rep)
@@ -202,6 +215,7 @@ func (x *Exec) verify(fn *ssa.Function, ct *Contract, rep *FuncReport) {
 	// type invariants of pointer parameters are assumed when they are dereferenced (nilCheck).
 	// preconditions
 	fc.entry = st.clone()
+	x.assumeInitFacts(st)
 	gev := x.newEval(nil, st, nil)
 	gev.callee = true
 	for _, cl := range x.prog.cs.Assumes {
